@@ -123,6 +123,28 @@ def c01_structured():
                 model([t2, s1], {"p1": dict(ops=["s1"]), "p2": dict(ops=["s1"], over={"s1/tau": 0.5}), "p3": dict(ops=["t2"])},
                       [edge("p1/s1/r", "p3/t2/u", 1.0), edge("p2/s1/r", "p3/t2/u", 2.0), edge("p1/s1/r", "p3/t2/w", -1.0),
                        edge("p3/t2/a", "p1/s1/r_in", 0.3), edge("p3/t2/a", "p2/s1/r_in", 0.6)])))
+    # F8: larger single-type populations: fan-in rings (>= 10 edges), all-to-all, sparse one-to-one permutations
+    pop = op_li("op", x="r", ins=("r_in",), tau=2.0, x0=0.4, in_defaults={"r_in": 0.0})
+    for nn_, pattern in ((6, "ring2"), (4, "dense"), (11, "perm"), (12, "sparse-fanin")):
+        nodes_ = {f"n{i}": dict(ops=["op"], over={"op/tau": 1.0 + 0.25 * i}) for i in range(nn_)}
+        es_ = []
+        if pattern == "ring2":
+            for i in range(nn_):
+                es_.append(edge(f"n{(i - 1) % nn_}/op/r", f"n{i}/op/r_in", 0.5 + 0.1 * i))
+                es_.append(edge(f"n{(i + 2) % nn_}/op/r", f"n{i}/op/r_in", -0.3 - 0.05 * i))
+        elif pattern == "dense":
+            for i in range(nn_):
+                for j in range(nn_):
+                    es_.append(edge(f"n{j}/op/r", f"n{i}/op/r_in", round(0.1 * (i + 1) - 0.07 * (j + 2), 3)))
+        elif pattern == "perm":
+            perm = [0, 3, 1, 2, 5, 4, 7, 6, 9, 8, 10]       # keeps first and last, non-identity inside
+            for i in range(nn_):
+                es_.append(edge(f"n{perm[i]}/op/r", f"n{i}/op/r_in", 1.0 + 0.1 * i))
+        else:
+            for i in range(nn_):
+                es_.append(edge(f"n{(i * 5 + 1) % nn_}/op/r", f"n{i}/op/r_in", 0.2 * (i + 1)))
+            es_.append(edge("n0/op/r", "n3/op/r_in", -1.0))
+        out.append((f"F8-{pattern}-{nn_}", dict(population=nn_, pattern=pattern, n_edges=len(es_)), model([pop], nodes_, es_)))
     # F7: hierarchy
     inner = model([base], {"p1": dict(ops=["op"]), "p2": dict(ops=["op"], over={"op/tau": 3.0})},
                   [edge("p1/op/r", "p2/op/r_in", 1.5)])
